@@ -264,6 +264,17 @@ func c05(c *Ctx) {
 			ncount++
 			key := c.FK(fn)
 			facts := ir.BlockFacts(st.Block())
+			fn := fn
+			// the increment extracted into a method of its own (f.countUnexpectedPwmValue()): the guards are
+			// those of its call site
+			if len(facts) == 0 {
+				if sites := c.StaticCallers(fn); len(sites) == 1 && load_FuncPkgPath(sites[0].Parent()) == PkgCtrl {
+					if len(ir.Returns(fn)) == 1 && len(fn.Blocks) <= 2 {
+						facts = ir.BlockFacts(sites[0].Block())
+						fn = sites[0].Parent()
+					}
+				}
+			}
 			var w *writerInfo
 			for _, x := range writers {
 				if x.lastField != "" && !strings.HasPrefix(x.lastField, "!") {
